@@ -4,6 +4,7 @@ package props
 
 import (
 	"fmt"
+	"regexp"
 	"sort"
 	"strings"
 
@@ -19,11 +20,24 @@ import (
 
 // C18: compilation is a deterministic, side-effect-free function of its input.
 
+var c18Addr = regexp.MustCompile(`0x[0-9a-f]{6,}`)
+
 func c18Globals() map[string]string {
 	out := map[string]string{}
 	for pkg, m := range map[string]map[string]string{"parser": parser.VerifGlobals(), "symtable": symtable.VerifGlobals(), "compile": compile.VerifGlobals(), "ast": ast.VerifGlobals()} {
 		for k, v := range m {
-			out[pkg+"."+k] = v
+			// locks and once-guards are not values a compilation computes (and the scheduler's
+			// stand-ins for them keep their own books); addresses differ whenever a table is rebuilt
+			skip := false
+			for _, t := range []string{"sync.Once{", "sync.Mutex{", "sync.RWMutex{", "sync.WaitGroup{", "vsync.Once{", "vsync.Mutex{", "vsync.RWMutex{", "vsync.WaitGroup{"} {
+				if strings.HasPrefix(v, t) {
+					skip = true
+				}
+			}
+			if skip {
+				continue
+			}
+			out[pkg+"."+k] = c18Addr.ReplaceAllString(v, "0xADDR")
 		}
 	}
 	return out
@@ -104,7 +118,6 @@ func c18Run(rc *core.RunCtx) {
 	}
 	rc.Note("package_level_vars_written_at_run_time", fmt.Sprint(verifrt.ColdNames()))
 	// baselines first, before anything else was compiled in this process
-	before := c18Globals()
 	base := map[string]string{}
 	for _, p := range scope {
 		base[p.Name] = c18Outcome(p, true)
@@ -112,6 +125,11 @@ func c18Run(rc *core.RunCtx) {
 	for _, p := range repo {
 		base[p.Name] = c18Outcome(p, false)
 	}
+	// the reference snapshot of the package-level variables is taken once every program of the
+	// corpus has been compiled: a table built on first use (correctly, under sync.Once) is not
+	// state a compilation leaves behind for another one to observe; anything that still changes
+	// after this point - while other sources, modes, flags, orders and interleavings are compiled - is
+	before := c18Globals()
 
 	// (a) every map-iteration order within the deviation bound
 	rc.Part = "order"
@@ -251,6 +269,8 @@ func c18Run(rc *core.RunCtx) {
 							input := fmt.Sprintf("py.Compile(%q, \"<other>\", %q, %#x, %v) then py.Compile(%s, ..., exec, 0, true) and (..., 0, false)", src, mode, flags, di, b.Name)
 							rc.Guard(fields, func() string { return input }, func() {
 								py.Compile(src, "<other>", mode, flags, di)
+								// and the probe's own text under another file name (in this disturber's mode when it is exec)
+								py.Compile(b.Src, "<othername>", mode, flags, di)
 								got := c18Outcome(b, false)
 								want := strings.Split(base[b.Name], "\nresult=")[0]
 								rc.Eval("history-args", "hista:"+input)
@@ -296,6 +316,9 @@ func c18Run(rc *core.RunCtx) {
 		})
 	}
 
+	// what (e) compares: taken here, because the interleaving part below puts the run-time-written
+	// variables back to their start-of-process values before every execution
+	afterSequential := c18Globals()
 	// (c) two concurrent compilations: every interleaving at function-entry granularity
 	rc.Part = "concurrent"
 	var tiny []Prog
@@ -390,9 +413,9 @@ func c18Run(rc *core.RunCtx) {
 	if rc.Take() {
 		fields := core.Fields{"part": "state"}
 		rc.Guard(fields, func() string {
-			return "package-level variables of parser, symtable, compile, ast before/after compiling the corpus"
+			return "package-level variables of parser, symtable, compile, ast after the first compilation of the corpus / after everything else"
 		}, func() {
-			after := c18Globals()
+			after := afterSequential
 			d := diffGlobals(before, after)
 			rc.Eval("state", "state")
 			rc.Count("package_level_vars_snapshotted", int64(len(after)))
